@@ -43,10 +43,11 @@ type Engine interface {
 	Shrink(plan interface{}, try func(cand interface{}) bool) interface{}
 }
 
-// IndexedGenerator is implemented by engines part of whose run indices are a
-// systematic corpus rather than seeded draws (nil = draw from the seed).
+// IndexedGenerator is implemented by engines that have a systematic corpus
+// next to the seeded draws: case n of SystematicTotal; the driver splits the
+// corpus evenly among the workers, which run their share before the seeded part.
 type IndexedGenerator interface {
-	GenIndexed(prop, tier string, idx uint64) interface{}
+	GenIndexed(prop, tier string, n uint64) interface{}
 	SystematicTotal(prop, tier string) uint64
 }
 
@@ -55,6 +56,9 @@ type IndexedGenerator interface {
 type FreshProcesser interface {
 	FreshProcess(plan interface{}) bool
 }
+
+// SysBase is added to the number of a systematic case to form its run index.
+const SysBase = uint64(1) << 40
 
 const SchedSalt = schedSalt
 
